@@ -167,28 +167,36 @@ Fixpoint add_target (fuel : nat) (g : graph) (m : option kset) (l : label) : opt
   end.
 
 (* ---- publicDependencies ---------------------------------------------------------------------- *)
+(* one iteration of `for _, dep := range target.DeclaredDependencies()`; rec = the recursive call *)
+Definition pd_step (g : graph) (t : target) (rec : target -> option (list target))
+                   (acc : option (list target)) (d : label) : option (list target) :=
+  match acc with
+  | None => None
+  | Some acc =>
+      match find_target g d with
+      | None => Some acc                                           (* depTarget == nil *)
+      | Some dt =>
+          if label_eqb (parent (t_label dt)) (parent (t_label t))
+          then match rec dt with None => None | Some r => Some (acc ++ r) end
+          else Some (acc ++ [dt])
+      end
+  end.
+
+(* target.Subrepo.Target, appended last *)
+Definition subrepo_dep (g : graph) (t : target) : list target :=
+  match t_subrepo_target t with
+  | Some l => opt_list (find_target g l)
+  | None => []
+  end.
+
+(* None = recursion deeper than the fuel (a cycle among the hidden sub-targets of one rule) *)
 Fixpoint public_deps (fuel : nat) (g : graph) (t : target) : option (list target) :=
   match fuel with
   | O => None
   | S f =>
-      let step (acc : option (list target)) (d : label) :=
-        match acc with
-        | None => None
-        | Some acc =>
-            match find_target g d with
-            | None => Some acc
-            | Some dt =>
-                if label_eqb (parent (t_label dt)) (parent (t_label t))
-                then match public_deps f g dt with None => None | Some r => Some (acc ++ r) end
-                else Some (acc ++ [dt])
-            end
-        end in
-      match fold_left step (t_declared t) (Some []) with
+      match fold_left (pd_step g t (public_deps f g)) (t_declared t) (Some []) with
       | None => None
-      | Some r => Some (r ++ match t_subrepo_target t with
-                            | Some l => opt_list (find_target g l)
-                            | None => []
-                            end)
+      | Some r => Some (r ++ subrepo_dep g t)
       end
   end.
 
@@ -295,28 +303,90 @@ Definition gc (g : graph) (a : args) : option (list label * list str) :=
 
 (* ---- correspondence cases ---- *)
 Inductive case :=
-| CGc (g : graph) (a : args) (removed : list label) (srcs : list str)   (* targetsToRemove *)
-| CPub (g : graph) (t : label) (deps : list label)                       (* publicDependencies *)
-| CSib (g : graph) (t : label) (sib : label).                            (* gcSibling *)
+| CGc (g : graph) (a : args)
+      (removed : list label) (srcs : list str)        (* what targetsToRemove returned *)
+      (pubs : list (label * list label))              (* publicDependencies of some targets *)
+      (sibs : list (label * label))                   (* gcSibling of some targets *)
+| CBad.                                               (* the harness sent something unreadable *)
 
 Definition check (c : case) : bool :=
   match c with
-  | CGc g a rem srcs =>
+  | CGc g a rem srcs pubs sibs =>
       match gc g a with
       | Some (r, x) => list_eqb label_eqb r rem && list_eqb str_eqb x srcs
       | None => false
       end
-  | CPub g l deps =>
-      match find_target g l with
-      | Some t => match public_deps (fuel_of g) g t with
-                  | Some ds => list_eqb label_eqb (map t_label ds) deps
-                  | None => false
-                  end
-      | None => false
-      end
-  | CSib g l sib =>
-      match find_target g l with
-      | Some t => label_eqb (t_label (gc_sibling g t)) sib
-      | None => false
-      end
+      && forallb (fun p => match find_target g (fst p) with
+                           | Some t => match public_deps (fuel_of g) g t with
+                                       | Some ds => list_eqb label_eqb (map t_label ds) (snd p)
+                                       | None => false
+                                       end
+                           | None => false
+                           end) pubs
+      && forallb (fun p => match find_target g (fst p) with
+                           | Some t => label_eqb (t_label (gc_sibling g t)) (snd p)
+                           | None => false
+                           end) sibs
+  | CBad => false
   end.
+
+(* ---- wire format -------------------------------------------------------------------------------
+   A case travels as ONE string literal (a Coq term of this size takes ~0.1 s to elaborate, a string
+   literal does not).  Five separator bytes that never occur in the data, from the outside in:
+     ^  fields of the case        !  items of a top-level list      |  fields of a record
+     ;  elements of a list field  ,  the three components of a label
+   An empty list field is the empty string. *)
+Fixpoint split_aux (c : N) (x cur : str) : list str :=
+  match x with
+  | [] => [rev cur]
+  | b :: r => if N.eqb b c then rev cur :: split_aux c r [] else split_aux c r (b :: cur)
+  end.
+Definition split (c : N) (x : str) : list str := split_aux c x [].
+Definition items (c : N) (x : str) : list str := match x with [] => [] | _ => split c x end.
+
+Definition d_label (x : str) : label :=
+  match split 44 x with
+  | [a; b; c] => L a b c
+  | _ => L (s "?") (s "?") (s "?")
+  end.
+Definition d_labels (x : str) : list label := map d_label (items 59 x).
+Definition d_bool (x : N) : bool := N.eqb x 49.   (* '1' *)
+
+Definition d_target (x : str) : target :=
+  match split 124 x with
+  | [l; [fb; ft; fo]; ls; decl; res; sub; srcs; data] =>
+      T (d_label l) (d_bool fb) (d_bool ft) (d_bool fo) (items 59 ls) (d_labels decl) (d_labels res)
+        (match sub with [] => None | _ => Some (d_label sub) end) (items 59 srcs) (items 59 data)
+  | _ => T (L (s "?") (s "?") (s "?")) false false false [] [] [] None [] []
+  end.
+
+Definition d_pkg (x : str) : pkg :=
+  match split 124 x with
+  | [a; b; subs; ts] => P a b (d_labels subs) (d_labels ts)
+  | _ => P (s "?") (s "?") [] []
+  end.
+
+Definition d_args (x : str) : option args :=
+  match split 124 x with
+  | [f; t; k; kl; [c]] => Some (A (d_labels f) (d_labels t) (d_labels k) (items 59 kl) (d_bool c))
+  | _ => None
+  end.
+
+Definition d_pair {X} (f : str -> X) (x : str) : label * X :=
+  match split 124 x with
+  | [a; b] => (d_label a, f b)
+  | _ => (L (s "?") (s "?") (s "?"), f [])
+  end.
+
+Definition dec (x : String.string) : case :=
+  match split 94 (s x) with
+  | [ts; ps; a; rem; srcs; pubs; sibs] =>
+      match d_args a with
+      | Some a => CGc (G (map d_target (items 33 ts)) (map d_pkg (items 33 ps))) a
+                      (d_labels rem) (items 59 srcs)
+                      (map (d_pair d_labels) (items 33 pubs)) (map (d_pair d_label) (items 33 sibs))
+      | None => CBad
+      end
+  | _ => CBad
+  end.
+Arguments dec x%string_scope.
